@@ -32,6 +32,8 @@ func (s Sort) elem() Sort {
 type Script struct {
 	cmds     []string
 	declared map[string]Sort
+	defs     map[string]string // name -> defining term (define-fun)
+	refSyms  map[string]bool   // parameter leaves of reference kind (<= alloc at entry)
 	declLog  []string
 	n        int
 }
@@ -41,7 +43,7 @@ type bigInt = big.Int
 var bigOne = big.NewInt(1)
 
 func newScript() *Script {
-	return &Script{declared: map[string]Sort{}}
+	return &Script{declared: map[string]Sort{}, defs: map[string]string{}, refSyms: map[string]bool{}}
 }
 
 func (s *Script) fresh(prefix string) string {
@@ -113,6 +115,13 @@ func (s *Script) Define(prefix string, sort Sort, term string) string {
 	name := s.fresh(prefix)
 	s.declared[name] = sort
 	s.declLog = append(s.declLog, name)
+	s.defs[name] = term
+	if sort.isArray() {
+		// array-valued abbreviations are constants with a defining equation, so
+		// that quantifier patterns mentioning them stay simple terms
+		s.cmds = append(s.cmds, fmt.Sprintf("(declare-fun %s () %s)", name, sort), fmt.Sprintf("(assert (= %s %s))", name, term))
+		return name
+	}
 	s.cmds = append(s.cmds, fmt.Sprintf("(define-fun %s () %s %s)", name, sort, term))
 	return name
 }
@@ -238,6 +247,12 @@ func mkEq(a, b string) string {
 	if a == b {
 		return "true"
 	}
+	if isLit(a) && isLit(b) {
+		return "false"
+	}
+	if (a == "true" && b == "false") || (a == "false" && b == "true") {
+		return "false"
+	}
 	return mkApp("=", a, b)
 }
 
@@ -253,3 +268,96 @@ func mkIte(c, a, b string) string {
 
 func mkSelect(a, i string) string   { return mkApp("select", a, i) }
 func mkStore(a, i, v string) string { return mkApp("store", a, i, v) }
+
+// sexprArgs splits "(op a b c)" into op and its top-level arguments.
+func sexprArgs(t string) (string, []string) {
+	if len(t) < 2 || t[0] != '(' || t[len(t)-1] != ')' {
+		return "", nil
+	}
+	body := t[1 : len(t)-1]
+	var parts []string
+	depth, start := 0, -1
+	for i := 0; i < len(body); i++ {
+		c := body[i]
+		switch {
+		case c == '(':
+			if depth == 0 && start < 0 {
+				start = i
+			}
+			depth++
+		case c == ')':
+			depth--
+			if depth == 0 {
+				parts = append(parts, body[start:i+1])
+				start = -1
+			}
+		case c == ' ':
+			if depth == 0 && start >= 0 {
+				parts = append(parts, body[start:i])
+				start = -1
+			}
+		default:
+			if depth == 0 && start < 0 {
+				start = i
+			}
+		}
+	}
+	if start >= 0 {
+		parts = append(parts, body[start:])
+	}
+	if len(parts) == 0 {
+		return "", nil
+	}
+	return parts[0], parts[1:]
+}
+
+// distinctRefs: syntactically distinct references (two allocation results on
+// one path, or an allocation result and a parameter reference).
+func (s *Script) distinctRefs(a, b string) bool {
+	if a == b {
+		return false
+	}
+	fa, fb := strings.HasPrefix(a, "ref!"), strings.HasPrefix(b, "ref!")
+	pa, pb := s.refSyms[a], s.refSyms[b]
+	return (fa && fb) || (fa && pb) || (pa && fb)
+}
+
+// simpSelect performs select-over-store simplification along named store chains.
+func (s *Script) simpSelect(arr, idx string) string {
+	for i := 0; i < 64; i++ {
+		t, ok := s.defs[arr]
+		if !ok {
+			break
+		}
+		op, args := sexprArgs(t)
+		if op != "store" || len(args) != 3 {
+			break
+		}
+		if args[1] == idx {
+			return args[2]
+		}
+		if s.distinctRefs(args[1], idx) {
+			arr = args[0]
+			continue
+		}
+		break
+	}
+	return mkSelect(arr, idx)
+}
+
+func mkAdd(a, b string) string {
+	if a == "0" {
+		return b
+	}
+	if b == "0" {
+		return a
+	}
+	return mkApp("+", a, b)
+}
+
+func mkSub(a, b string) string {
+	if b == "0" {
+		return a
+	}
+	return mkApp("-", a, b)
+}
